@@ -1043,3 +1043,12 @@ Proof.
   - apply (Hgen a); auto.
   - apply (Hgen b); auto.
 Qed.
+
+Theorem accepted_exclusive_elab : forall prog d res,
+  elab prog d = Some res ->
+  forall rho l, (length (active_for rho prog l) <= 1)%nat.
+Proof.
+  intros prog d res H. apply accepted_exclusive.
+  destruct (spec_accepts prog) eqn:E; [reflexivity|].
+  apply (elab_none_iff prog d) in E. congruence.
+Qed.
